@@ -59,6 +59,16 @@ mod helpers {
     use std::fmt;
     use yaserde::{YaDeserialize, YaSerialize};
 
+    /// Stands in for the reply of a one-way operation (an operation without an output message):
+    /// the body of the HTTP reply is not looked at.
+    pub(super) struct NoResponse;
+
+    impl YaDeserialize for NoResponse {
+        fn deserialize<R: std::io::Read>(_reader: &mut yaserde::de::Deserializer<R>) -> Result<Self, String> {
+            Ok(NoResponse)
+        }
+    }
+
     pub(super) async fn send_soap_request<YI, YO, U, P>(
         url: &str,
         credentials: Option<(U, P)>,
